@@ -201,7 +201,7 @@ def parse_member(block):
         if m and flags is None:
             flags = m.group(1)
     is_method = desc.startswith("(")
-    if decl.startswith("static {}"):
+    if decl.endswith("{};"):
         name = "<clinit>"
     elif is_method:
         before = decl.split("(")[0]
@@ -449,6 +449,9 @@ while i < len(tail):
         while i < len(tail) and tail[i].startswith("  "):
             t = tail[i].split("//")[0].strip().rstrip(";").strip()
             m = re.match(r"^(.*?)(?:#(\d+)= )?#(\d+)(?: of #(\d+))?$", t)
+            if not m:
+                i += 1
+                continue
             nm = utf8(int(m.group(2))) if m.group(2) else "-"
             outer = cls(int(m.group(4))) if m.group(4) else "-"
             out.append("inner %s outer %s name %s" % (cls(int(m.group(3))), outer, nm))
